@@ -617,11 +617,11 @@ pub fn run_prop(ctx: &Ctx) -> PropReport {
         let (count, stride, exhaustive) = if len <= 3 { (n, 1, true) } else { (n / 11, 11, false) };
         rep.part(|| run_enum(ctx, &format!("builder_len{len}"), &format!("bounded-exhaustive (length {len}{}): {rule}", if exhaustive { "" } else { ", every 11th sequence" }), count, move |i| exh_case(i * stride, len, &dom2, mix(seed, i)), eval, exhaustive));
     }
-    rep.part(|| run_random(ctx, "builder_random", &format!("random programs of up to 11 calls (half of them start with a plausible player registration): {rule}"), random_case, ctx.tier.pick(40_000, 400_000), eval));
+    rep.part(|| run_random(ctx, "builder_random", &format!("random programs of up to 11 calls (half of them start with a plausible player registration): {rule}"), random_case, ctx.tier.pick(120_000, 1_000_000), eval));
     let tier = ctx.tier;
     rep.part(|| run_random(ctx, "misuse",
         "valid C01-style runs with 1-15 misuse calls inserted at arbitrary ticks (add_local_input for a non-local handle, advance_frame with an input missing or before synchronisation, disconnect_player for a local/unknown/already disconnected player, set_input_delay / network_stats for the wrong player type): each must return the documented error, nothing may panic, and the run must be identical (request traces, states, events, connection status) to the twin without those calls, where a call that polls internally is replaced by a bare poll",
-        || gen_misuse(tier), ctx.tier.pick(1500, 8000), eval_misuse));
+        || gen_misuse(tier), ctx.tier.pick(5000, 20000), eval_misuse));
     rep.assumptions = vec!["'exactly what the documentation allows' is the reference predicate in props/c16.rs (written from the rustdoc of SessionBuilder); input delay and prediction window are kept within 0..=16".into()];
     rep
 }
